@@ -414,8 +414,15 @@ func (g *genState) table(nested bool, parentFont float64) *tableSpec {
 	}
 	// one table in six is drawn from the "every column constrained" family (constrained.go):
 	// px table width, a px width on every column, no percentages
-	if r.Intn(6) == 0 {
+	// and one in six from the "percentage columns next to length columns" family (mixed.go):
+	// every column sized, some by a percentage, the others by a px width, px or auto table width
+	switch v := r.Intn(24); {
+	case os.Getenv("VERIF_C13_FAMILY") == "mixed": // development only: every table from the family
+		g.constrainMixed(t)
+	case v < 4:
 		g.constrainAll(t)
+	case v < 8:
+		g.constrainMixed(t)
 	}
 	g.restrict(t)
 	return t
